@@ -26,6 +26,40 @@ CLAIMS = {
     },
 }
 
+CLAIMS.update({
+    'C04': {
+        'text': 'Static: overflow test agrees with its placement (len > limit after insertion / len >= limit before), lies on every storing path; under the overflow oracle every '
+                'flavour x policy path removes at most one entry and removes it from store and queue together; stores leave key in both; random victim is a queue position; '
+                're-stored keys are de-duplicated. The numeric bound over histories is the paper induction over these premises.',
+        'design_ref': 'DESIGN.md section 5 C04', 'note': TRUST, 'technique': 'configuration-specialised path-sensitive effect totals over MIR + comparison normal forms + dominance',
+    },
+    'C05': {
+        'text': 'Static: oversize and fit tests in exact normal form and placed correctly; oversize leaves no net entry and skips eviction; "fits" evicts nothing; each loop iteration '
+                'removes one victim from store and queue or leaves the loop; estimator impls count capacity and recurse into each component. Numeric totals are not decided.',
+        'design_ref': 'DESIGN.md section 5 C05', 'note': TRUST, 'technique': 'comparison normal forms with role resolution + oracle-driven path exploration + impl obligations',
+    },
+    'C06': {
+        'text': 'Static: expiry test is AGE_SECS >= TTL on whole seconds; for every flavour x configuration, expired => nothing served, own key purged from store and queue; '
+                'fresh => served, nothing removed; birth time written only at store. Wall-clock behaviour is not decided.',
+        'design_ref': 'DESIGN.md section 5 C06', 'note': TRUST, 'technique': 'comparison normal form + oracle-driven scenario table over specialised MIR paths',
+    },
+    'C07': {
+        'text': 'Static: one queue orientation for store/touch/victim in all flavours and paths; LRU hit re-queues the key on every path when a bound is configured, FIFO hit touches nothing; '
+                'victim loops skip orphans. Victim identity over histories is the paper induction.',
+        'design_ref': 'DESIGN.md section 5 C07', 'note': TRUST, 'technique': 'per-configuration effect table on hit paths + orientation table agreement',
+    },
+    'C08': {
+        'text': 'Static: LFU/ARC/TLRU hits count once and (ARC/TLRU) re-queue; counters start at 0; selectors scan the whole queue replacing on <; score is the documented product; '
+                'recency polarity and exponent are judged where residents compete. Float ties / age interval not decided.',
+        'design_ref': 'DESIGN.md section 5 C08', 'note': TRUST, 'technique': 'effect table + expression-tree factor/polarity analysis of the selectors',
+    },
+    'C15': {
+        'text': 'Static: exactly one hit/miss record on every lookup path of every flavour x configuration x scenario, hit iff a value is returned; counters are atomic RMW on the '
+                'same-named field; registry reset/get touch one entry; generated code registers the static it passes to the cache under the right name.',
+        'design_ref': 'DESIGN.md section 5 C15', 'note': TRUST, 'technique': 'path-sensitive counting over specialised MIR + shape rules on stats code + wrapper registration rule',
+    },
+})
+
 NOT_APPLICABLE = {}
-for _p in ['C01', 'C02', 'C03', 'C04', 'C05', 'C06', 'C07', 'C08', 'C09', 'C10', 'C11', 'C12', 'C13', 'C14', 'C15', 'C19']:
+for _p in ['C01', 'C02', 'C03', 'C09', 'C10', 'C11', 'C12', 'C13', 'C14', 'C19']:
     NOT_APPLICABLE[_p] = 'rules not built yet (work in progress; see DESIGN.md section 10 build order)'
